@@ -37,6 +37,12 @@ func (r *vRec) ReportHistogramDurationSamples(name string, tags map[string]strin
 func (r *vRec) Capabilities() tally.Capabilities { return nil }
 func (r *vRec) Flush()                           {}
 
+// error types whose nil value is still a non-nil error interface ("typed nil"): whatever one
+// thinks of the practice, a function that returns such a value returned a non-nil error
+type vPtrErr struct{ msg string }
+
+func (e *vPtrErr) Error() string { return "ptr error" }
+
 // VerifC10Call: the instrumented call wrapper over histories of 1..3 executions.
 func VerifC10Call() {
 	rec := &vRec{}
@@ -48,7 +54,11 @@ func VerifC10Call() {
 	for i := 0; i < n; i++ {
 		invoked := 0
 		var ret error
-		switch verifrt.Choose("outcome", 7) {
+		switch verifrt.Choose("outcome", 9) {
+		case 7:
+			ret = (*vPtrErr)(nil)
+		case 8:
+			ret = &vPtrErr{"x"}
 		case 1:
 			ret = e1
 		case 2:
